@@ -9,7 +9,10 @@ use std::cell::RefCell;
 use std::sync::Arc;
 
 pub mod frim;
+pub mod c17;
+pub mod ingress;
 pub mod codec;
+pub mod http;
 
 /// A pause-point handler installed per thread by a harness.
 pub type PointFn = Arc<dyn Fn(&'static str) + Send + Sync>;
